@@ -100,7 +100,9 @@ class Node:
             return cast(float, _scalar_constructor.construct_yaml_float(
                 self.yaml_node))
         if self.yaml_node.tag == 'tag:yaml.org,2002:bool':
-            return self.yaml_node.value in ['TRUE', 'True', 'true']
+            # an explicitly tagged !!bool may be spelled yes, on and so on
+            return cast(bool, _scalar_constructor.construct_yaml_bool(
+                self.yaml_node))
         if self.yaml_node.tag == 'tag:yaml.org,2002:null':
             return None
         raise RuntimeError('This node with tag "{}" is not of the right type'
